@@ -2,6 +2,7 @@ import Pi2.NotationThm
 import Pi2.Sound.Inst
 import Pi2.RustTie
 import Pi2.PyTie
+import Pi2.InstUThm
 /-!
 # C11 — substitution and instantiation obey their algebra
 
@@ -403,5 +404,13 @@ theorem python_pattern_operations_are_the_model :
     (∀ p δ, δ ≠ [] → Gen.Py.instantiate p δ = Py.inst (Py.lookup δ) p) :=
   ⟨PyTie.translated, PyTie.evar_is_free_eq, PyTie.metavars_eq, PyTie.apply_esubst_eq, PyTie.apply_ssubst_eq,
    PyTie.instantiate_nil, PyTie.instantiate_eq⟩
+
+/-- `instantiate_in_place` as the Rust code computes it (`Pat.instU`: arm by arm with the "unchanged" optimisation; the
+correspondence compares the real checker with it on ALL patterns) is the simple model `inst`, about which the laws above
+and the soundness proof are stated, on every pattern the machine can build (`Shape`) -/
+theorem rust_instantiate_is_the_model (vars : List VId) (plugs : List Pat) (hlen : vars.length = plugs.length)
+    (p : Pat) (hs : p.Shape = true) :
+    (Pat.instU vars plugs p).map (·.getD p) = Pat.inst (Pat.lookupPlug vars plugs) p :=
+  Pat.instU_eq_inst vars plugs hlen p hs
 
 end C11
